@@ -176,7 +176,11 @@ func genStructured(wd *World, p *pools, ms []apiMethod, r *rng.R) gcase {
 			pl := poolPayload(r, sa, nonce)
 			switch r.Intn(12) {
 			case 0:
-				pl = pick(r, []string{"", "0", "zz", "0001", "0001" + rep("00", 60), rep("ab", 5000), pl + "00", "0002" + pl[4:]}, nil, 100)
+				alt := pl
+				if len(alt) > 4 {
+					alt = "0002" + alt[4:] // another method number
+				}
+				pl = pick(r, []string{"", "0", "zz", "0001", "0001" + rep("00", 60), rep("ab", 5000), pl + "00", alt}, nil, 100)
 			case 1:
 				if len(pl) > 20 {
 					pl = pl[:len(pl)-8] + "00000000" // signature no longer verifies
